@@ -258,6 +258,8 @@ def is_panic_path(p):
 
 class Facts:
     def __init__(self, doc):
+        from analysis import rename
+        doc, self.renamed = rename.normalise(doc)     # a pure rename of a known function is undone (unique fingerprint match only)
         self.doc = doc
         self.config = doc.get('_config')
         self.fns = {f['key']: f for f in doc['fns']}
